@@ -7,7 +7,8 @@ META = {
                   "used through their contracts: for every Pow node the returned string reads back (under ESR's symbol tables: pow = |a|**b, sqrt) as the power -- sqrt(B) for the "
                   "exponent S.Half, 1/sqrt(B) for -S.Half, 1/B for -1, B**E exactly when the exponent is an integer, pow(B,E) otherwise -- given that the sub-strings read back as the "
                   "sub-expressions and that the base of a non-integer power is non-negative; the infix ** is emitted only for integer exponents and an integer exponent never goes through "
-                  "pow() (which would take |base|). The other printer methods (_print_Mul, _print_Add, ...) are not under contract.",
+                  "pow() (which would take |base|). ESRPrinter.parenthesize is verified against the contract _print_Pow uses for it (both strictness modes: the result denotes the item and binds "
+                  "strictly tighter than / at least as tight as `level`). The other printer methods (_print_Mul, _print_Add, ...) are not under contract.",
     "text": "Bounded stand-in on the real printer and the two real readers: expressions over x>0, a0..a2 real, integers -3..3, rationals "
             "1/2, -1/2, -3/2, 2/3 built with sympy's evaluating constructors from Add, Sub, Mul, Div, integer powers -3..3, rational and general "
             "powers of bases that are non-negative by construction, Abs (evaluated and unevaluated), exp, log|.|, sqrt|.|, sin — exhaustive "
@@ -75,8 +76,14 @@ def check(run):
                                               "templates; _print / parenthesize through their contracts (induction hypothesis)")
     if st_ != "unsupported" and D.canary(run, "generation/custom_printer.py", "ESRPrinter._print_Pow", c_printer.print_pow_contract) is False:
         raise RuntimeError("canary verified: engine vacuous on _print_Pow")
+    for strict in (False, True):
+        st2, f2, _e2 = D.verify_function(run, "generation/custom_printer.py", "ESRPrinter.parenthesize", (lambda strict=strict: c_printer.parenthesize_contract(strict)), timeout_ms=8000,
+                                         tag="strict=%s" % strict, note="the contract _print_Pow uses for its operands, verified against the body; _print through the printing convention (A-sympy)")
+        pfailed = list(pfailed) + list(f2)
+    if D.canary(run, "generation/custom_printer.py", "ESRPrinter.parenthesize", (lambda: c_printer.parenthesize_contract(False))) is False:
+        raise RuntimeError("canary verified: engine vacuous on parenthesize")
     run.assume("A-sympy (reader): ESR's symbol tables read sqrt(E), 1/sqrt(E), 1/R, B**E and pow(B,E) as stated in contracts/c_printer.py; precedence(Pow) = 60 > precedence(Mul) = 50; "
-               "parenthesize(item, level, strict=False) returns a string that binds strictly tighter than `level`; S.Half / -S.Half are not integers, -1 is",
+               "the string _print returns for an expression binds as tight as sympy's precedence of the expression, `(s)` denotes what s denotes and binds tighter than anything (parenthesize itself is verified against these); S.Half / -S.Half are not integers, -1 is",
                "identities of powers: b**(1/2) = sqrt(b), b**(-1/2) = 1/sqrt(b), b**(-1) = 1/b; |b| = b for the (non-negative) bases of non-integer powers",
                "A-str: a string built with `fmt % args` is an injective function of its arguments; the template used is read off the returned term")
     run.trust("pyvc", "z3 5.1.0")
@@ -84,7 +91,7 @@ def check(run):
     D.report_structural(run, sfailed, "symtab", "pyvc/symtab.py")
     if pfailed and not run.violations:
         from checks.C14 import report_unproved
-        report_unproved(run, pfailed, False, "ESRPrinter._print_Pow")
+        report_unproved(run, pfailed, False, "ESRPrinter._print_Pow / parenthesize")
     return run.finish("other", META["structural"] + " " + META["text"], CHECKER,
                       rule="cases = distinct built expressions (by srepr) that were printed and read back; distinct_nontrivial = those defined at >= 1 of the "
                            "5 sample points (compared there with both readers); the cross-interpreter purity pass re-uses the same expressions and adds cases only")
